@@ -5,7 +5,7 @@
 typedef struct { unsigned char a[32]; unsigned char b[32]; int mode; } adaptor_nonce_state;
 /* mode 0: constant a; 1: always fail; 2: a for the 16-byte (signing) algo, b otherwise;
  * 3: a for the 16-byte algo, failure otherwise */
-static adaptor_nonce_state g_ans;
+static __thread adaptor_nonce_state g_ans;
 static int adaptor_nonce_custom(unsigned char *nonce32, const unsigned char *msg32, const unsigned char *key32, const unsigned char *pk33, const unsigned char *algo, size_t algolen, void *data) {
     (void)msg32; (void)key32; (void)pk33; (void)algo; (void)data;
     switch (g_ans.mode) {
